@@ -387,12 +387,14 @@ theorem connectedInbound_shape {σ τ : State} (h : SameShape σ τ) (r : Nid) (
     · simp only [upd_other _ hk]; exact h.2.2.2 k
   · obtain ⟨hi, hh, hr, hpers, _⟩ := view_fields hv
     simp only [hp, hq]
-    refine ⟨h.1, h.2.1, h.2.2.1, ?_⟩
-    intro k
-    by_cases hk : k = r
-    · subst hk
-      simp [upd_same, Session.view, Session.toConnected, SessState.kind, hi, hh, hr, hpers]
-    · simp only [upd_other _ hk]; exact h.2.2.2 k
+    have key : ∀ k, (upd τ.sessions r (some t.toConnected) k).map Session.view =
+        (upd σ.sessions r (some s.toConnected) k).map Session.view := by
+      intro k
+      by_cases hk : k = r
+      · subst hk
+        simp [upd_same, Session.view, Session.toConnected, SessState.kind, hi, hh, hr, hpers]
+      · simp only [upd_other _ hk]; exact h.2.2.2 k
+    split <;> split <;> exact ⟨h.1, h.2.1, h.2.2.1, key⟩
 
 theorem disconnected_shape {σ τ : State} (h : SameShape σ τ) (r : Nid) :
     SameShape (disconnected σ r) (disconnected τ r) := by
